@@ -429,7 +429,8 @@ def process_batch(part, variant, cfg, A, samp):
             case = localise(variant, cfg, A, samp, b)
         else:
             case = {"variant": variant, "overflow": True}
-        part.violation(case, f"{variant} H={H} W={W} stride={s} sigma={sigma} n_samples={samp.shape[1]}: {msgs[b]}")
+        ns = f"{B} (cases batched through the samples axis)" if variant in BATCHED else str(samp.shape[1])
+        part.violation(case, f"{variant} H={H} W={W} stride={s} sigma={sigma} n_samples={ns}: {msgs[b]}")
         tag = msgs[b][1:].split("]")[0] if msgs[b].startswith("[") else "raised"
         part.add(f"violations::{variant}::n_samples={samp.shape[1]}::{tag}", 1)
 
